@@ -125,8 +125,16 @@ def kept_datasets():
             ends = [((0, 0), (2, 2)), ((2, 0), (0, 2)), ((1, 1), (0, 0)), ((0, 1), (2, 1))][k]
             p = R.all_shortest_paths(adj, *ends)[0]
             mazes.append(SolvedMaze(connection_list=cl, solution=np.array(p)))
+        # equalise the longest solution: both datasets end with a maze whose solution is the full 9-cell walk through a serpentine tree
+        snake = [(0, 0), (0, 1), (0, 2), (1, 2), (1, 1), (1, 0), (2, 0), (2, 1), (2, 2)]
+        if name == "B":
+            snake = [(c, r) for r, c in snake]  # the transposed serpentine: another maze, same solution length
+        scl = np.zeros((2, 3, 3), dtype=bool)
+        for (a, b), (c, d) in zip(snake, snake[1:]):
+            (i, j), (k, l) = sorted([(a, b), (c, d)])
+            scl[0 if k == i + 1 else 1, i, j] = True
+        mazes.append(SolvedMaze(connection_list=scl, solution=np.array(snake)))
         out[name] = mazes
-    # equalise the longest solution: both datasets get one maze whose solution is the full 9-cell serpentine of the same comb tree
     return {k: MazeDataset(MazeDatasetConfig(name=f"kept{k}", grid_n=3, n_mazes=len(v), seed=11), v) for k, v in out.items()}
 
 
